@@ -1,4 +1,5 @@
 import Dawgs.Model.C01
+import Dawgs.Model.C01S2
 import Dawgs.Model.C03Bind
 import Dawgs.Model.SqlSchema
 /-
@@ -253,5 +254,114 @@ theorem tr_wellScoped (km : KindMap) (s : S1.Query) (st : Stmt) (h : s.tr km = s
       have hs0 : (⟨"s0", [⟨"n0", "nodecomposite"⟩]⟩ : Rel) = s0Rel := rfl
       simp only [hs0, hFromO, Scope.push, Option.bind_eq_bind, Option.bind_some, bOpt, hcols', bGroupBy, Option.pure_def, isSelect, hob, h1', h2',
         Option.isSome_some]
+
+-- ------------------------------------------------------------------ stage S2a: one directed hop
+
+namespace Hop
+open Dawgs.C01.S2
+
+def joinsOf (ka kb : Option (List Nat)) : List Join :=
+  let ja : Join := .mk .inner (.table ["node"] (some "n0")) (some (joinOn "n0" "start_id" ka))
+  let jb : Join := .mk .inner (.table ["node"] (some "n1")) (some (joinOn "n1" "end_id" kb))
+  if ka.isNone && kb.isSome then [jb, ja] else [ja, jb]
+
+def whOf (kr : Option (List Nat)) : Option Expr := kr.map (fun ids => .bin "=" (col "e0" "kind_id") (.anyOf (kindsLit ids)))
+
+def frameQ (ka kr kb : Option (List Nat)) : Sql.Query :=
+  Sql.Query.simple (.select false [edgeComposite, nodeCompositeOf "n0", nodeCompositeOf "n1"] [.mk (.table ["edge"] (some "e0")) (joinsOf ka kb)] (whOf kr) [] none)
+
+def frameCols : List Col := [⟨"e0", "edgecomposite"⟩, ⟨"n0", "nodecomposite"⟩, ⟨"n1", "nodecomposite"⟩]
+
+/-- the hop frame binds for every choice of kind constraints (the kind-id lists are literals: their content is never inspected) -/
+theorem bFrame2 (ka kr kb : Option (List Nat)) : bQuery Γ0 ⟨[], []⟩ (frameQ ka kr kb) = some frameCols := by
+  cases ka <;> cases kb <;> cases kr <;> rfl
+
+def s0Rel2 : Rel := ⟨"s0", frameCols⟩
+def scO2 : Scope := ⟨[s0Rel2], [[s0Rel2]]⟩
+
+theorem hFromO2 : bFromClauses Γ0 ⟨[s0Rel2], []⟩ [] [.mk (.table ["s0"] none) []] = some [s0Rel2] := by decide +kernel
+
+theorem bItem2 (q : S2.Query) (it : S2.Item) : ∃ ty, bExpr Γ0 scO2 (it.tr q) = some ty := by
+  cases it with
+  | ent x al => cases x <;> exact ⟨_, rfl⟩
+  | idOf x al => cases x <;> cases al <;> exact ⟨_, rfl⟩
+  | prop x k al => cases x <;> cases al <;> exact ⟨_, rfl⟩
+
+theorem item2_not_wildcard (q : S2.Query) (it : S2.Item) : it.tr q ≠ .wildcard := by
+  cases it with
+  | ent x al => intro hh; cases hh
+  | idOf x al => cases al <;> (intro hh; cases hh)
+  | prop x k al => cases al <;> (intro hh; cases hh)
+
+theorem bProjItems2 (q : S2.Query) : ∀ (items : List S2.Item), ∃ cols, bProj Γ0 scO2 [s0Rel2] (items.map (S2.Item.tr q)) = some cols
+  | [] => ⟨[], by rw [List.map_nil, bProj]⟩
+  | it :: items => by
+    obtain ⟨ty, hty⟩ := bItem2 q it
+    obtain ⟨cols, hcols⟩ := bProjItems2 q items
+    refine ⟨⟨figureName (it.tr q), ty⟩ :: cols, ?_⟩
+    rw [List.map_cons, bProj]
+    · simp only [hty, hcols, Option.bind_eq_bind, Option.bind_some, Option.pure_def]
+    · intro hh; exact item2_not_wildcard q it hh
+
+/-- THE FRAGMENT THEOREM, stage S2a: every one-hop statement passes the verified binder under the schema catalogue with no parameters -/
+theorem tr_wellScoped2 (km : KindMap) (s : S2.Query) (st : Stmt) (h : s.tr km = some st) : wellScoped Γ0 st = true := by
+  unfold S2.Query.tr at h
+  cases hwf : s.wf with
+  | false => simp [hwf] at h
+  | true =>
+    simp only [hwf, Bool.not_true, Bool.false_eq_true, if_false] at h
+    cases hka : kindIds? km s.akinds with
+    | none => simp [hka] at h
+    | some ka =>
+      cases hkr : kindIds? km s.rkinds with
+      | none => simp [hka, hkr] at h
+      | some kr =>
+        cases hkb : kindIds? km s.bkinds with
+        | none => simp [hka, hkr, hkb] at h
+        | some kb =>
+          simp only [hka, hkr, hkb, Option.some.injEq] at h
+          subst h
+          obtain ⟨cols, hcols⟩ := bProjItems2 s s.items
+          have hcols' : bProj Γ0 ⟨[s0Rel2], [[s0Rel2]]⟩ [s0Rel2] (s.items.map (S2.Item.tr s)) = some cols := hcols
+          have hfr := bFrame2 ka kr kb
+          unfold frameQ joinsOf whOf at hfr
+          unfold wellScoped
+          rw [bStmt, bQuery, bCtes]
+          case x_2 => intro _ _ _ _ _ _ _ _ hh; cases hh
+          simp only [Scope.empty, Scope.withCtes, hfr, Option.bind_eq_bind, Option.bind_some, bShape, List.contains_nil, Bool.false_eq_true,
+            if_false, bCtes]
+          rw [bSetExpr]
+          have hs0 : (⟨"s0", frameCols⟩ : Rel) = s0Rel2 := rfl
+          simp only [hs0, hFromO2, Scope.push, Option.bind_eq_bind, Option.bind_some, bOpt, hcols', bGroupBy, Option.pure_def, isSelect, bOrderBy,
+            Option.isSome_some]
+
+end Hop
+
+/-- both proved stages: every statement of `tr2` is closed and carries no parameters -/
+theorem tr2_wellScoped (km : KindMap) (q : Cy.Query) (st : Stmt) (ps : List (String × Val)) (h : C01.tr2 km q = some (st, ps)) :
+    wellScoped Γ0 st = true ∧ ps = [] := by
+  unfold C01.tr2 at h
+  cases h1 : C01.tr km q with
+  | some r =>
+    rw [h1] at h; cases h
+    unfold C01.tr at h1
+    cases ho : C01.ofCy q with
+    | none => rw [ho] at h1; cases h1
+    | some s =>
+      rw [ho] at h1
+      simp only [Option.map_eq_some_iff] at h1
+      obtain ⟨st', hst, heq⟩ := h1
+      cases heq
+      exact ⟨tr_wellScoped km s _ hst, rfl⟩
+  | none =>
+    rw [h1] at h
+    cases ho : C01.ofCy2 q with
+    | none => rw [ho] at h; cases h
+    | some s =>
+      rw [ho] at h
+      simp only [Option.map_eq_some_iff] at h
+      obtain ⟨st', hst, heq⟩ := h
+      cases heq
+      exact ⟨Hop.tr_wellScoped2 km s _ hst, rfl⟩
 
 end Dawgs.C03.Frag
